@@ -191,6 +191,9 @@ fn replay(path: &str) -> i32 {
     };
     let v: serde_json::Value = serde_json::from_str(&text).expect("replay json");
     let prop = v["property"].as_str().unwrap_or("").to_string();
+    if prop == "C13" {
+        vh::interp::COMPACT_GROWTH_ORACLE.store(true, std::sync::atomic::Ordering::Relaxed);
+    }
     let r = &v["replay"];
     let engine = r["engine"].as_str().unwrap_or("");
     println!("replaying {engine} case of {prop}: {}", v["message"].as_str().unwrap_or(""));
@@ -509,6 +512,7 @@ fn check(prop: &str, tier: &str) -> i32 {
             rep.finish()
         }
         "C13" => {
+            vh::interp::COMPACT_GROWTH_ORACLE.store(true, std::sync::atomic::Ordering::Relaxed);
             let mut rep = Report::new(prop, tier, "model_checking");
             rep.cov("rule", json!("(a) every sequence up to the depth bound of fragmenting transactions (big/small inserts, deletes, growth, shrink, non-durable commits), reader/savepoint lifetimes and compact() from multi-region fragmented seeds: compact() must refuse exactly when a reader / ephemeral / persistent savepoint exists, otherwise leave the dump unchanged, not grow the file, stay within a backend-call budget, and repeated calls must reach `false`; (b) crash enumeration (engine of C01) at every storage operation inside compaction"));
             rep.cov("exhaustive", json!(true));
